@@ -17,10 +17,14 @@ LEVEL = "exploration"
 RULE = ("random (algorithm in 6, dimension n 2..10 as vector or matrix, sketch size 2..n, delta in "
         "{0,1e-9,1e-3,0.1,1}, lr) x gradient histories of length 1..20 from families {gauss, lowrank(rank<m), "
         "scales, zeros-interleaved, repeated, tiny 1e-7..1e-4}; one case = one (config, history); non-trivial when a "
-        "gradient is non-zero; distinct by config+history seed")
+        "gradient is non-zero; distinct by config+history seed; plus the training loop of oco/train.py "
+        "(_compiled_run_dataset: scan over observation chunks of a fori_loop over rows) on synthetic datasets of "
+        "3..24 rows with the library's logistic loss or a squared loss, 2..6 observation points: every history entry "
+        "must be the state after exactly obs_ixs[i] rows (closed forms for OGD/ADA with the monitor's own gradients, "
+        "row-by-row stepping of the update function for the sketched methods)")
 ASSUMPTIONS = ["float64 comparisons with relative tolerance 1e-9 (1e-7 for dense-inverse cross checks scaled by condition number)"]
 DECIDING = ["closed_form_checked", "last_row_zero_checked", "bracket_checked", "alpha_checked",
-            "lossless_checked", "precond_apply_checked"]
+            "lossless_checked", "precond_apply_checked", "train_history_checked"]
 MIN_NONTRIVIAL = 30
 TIMEOUT = {"quick": 900, "thorough": 5400}
 
@@ -229,6 +233,107 @@ def check_case(c, rec):
           return
 
 
+def gen_train_case(rng):
+  alg = ALGS[int(rng.integers(0, len(ALGS)))]
+  n = int(rng.integers(2, 7))
+  m = 0 if alg in ("OGD", "ADA") else int(rng.integers(2, n + 1))
+  # sketched methods with delta = 0 invert eigenvalues that are rounding noise until the sketch overflows (alpha = 0):
+  # the compiled and the eager run of the very same steps then differ by O(1), so the trajectory comparison is
+  # only meaningful with a positive delta there; OGD/ADA closed forms are exact for delta = 0 too
+  deltas = [0.0, 1e-3, 0.1, 1.0] if alg in ("OGD", "ADA") else [1e-3, 0.1, 1.0]
+  rows = int(rng.integers(3, 25))
+  return {"kind": "train", "alg": alg, "n": n, "m": m, "delta": float(rng.choice(deltas)),
+          "lr": float(rng.choice([0.3, 1.0, 0.05])), "rows": rows, "num_obs": int(rng.integers(2, min(rows, 6) + 1)),
+          "loss": str(rng.choice(["logistic", "square"])), "family": "train", "hseed": int(rng.integers(0, 2 ** 31))}
+
+
+def check_train(c, rec):
+  """The training loop of oco/train.py delivers, at every observation index, the state after exactly that many rows."""
+  import jax
+  import jax.numpy as jnp
+  from precondition.oco import algorithms as A
+  from precondition.oco import datasets as D
+  from precondition.oco import train as TR
+  rng = np.random.default_rng(c["hseed"])
+  n, rows, alg, delta, lr = c["n"], c["rows"], c["alg"], c["delta"], c["lr"]
+  x = rng.standard_normal((rows, n))
+  y = (rng.random(rows) < 0.5).astype(np.float64)
+  rec.case(util.key_hash(c), True, sample=c)
+  rec.count("alg_" + alg)
+  rec.count("family_train")
+  if c["loss"] == "logistic":
+    loss = D._logistic_loss
+    np_grad = lambda w, r, yy: (1.0 / (1.0 + np.exp(-(w @ r))) - yy) * r
+    np_loss = lambda w, r, yy: yy * np.logaddexp(0, -(w @ r)) + (1 - yy) * np.logaddexp(0, w @ r)
+  else:
+    loss = lambda w, r, yy: 0.5 * (jnp.dot(w, r) - yy) ** 2
+    np_grad = lambda w, r, yy: ((w @ r) - yy) * r
+    np_loss = lambda w, r, yy: 0.5 * ((w @ r) - yy) ** 2
+  hp = A.HParams(delta=delta, lr=lr, sketch_size=c["m"], algorithm=A.Algorithm[alg])
+  init, upd = A.generate_init_update((n,), hp)
+  obs = np.round(np.linspace(0, rows, num=c["num_obs"], endpoint=True)).astype(int)   # as run_dataset builds them
+  st0 = init()
+  st0["loss"] = jnp.array(0.0, dtype=jnp.float64)
+  st0["n"] = 0
+  lag = jax.value_and_grad(loss)
+  hist = TR._compiled_run_dataset(jnp.asarray(x), jnp.asarray(y), dict(st0), jnp.asarray(obs), lag, upd, None)
+  hist = {k: np.asarray(v, np.float64) for k, v in hist.items()}
+  # reference trajectory: closed forms with the monitor's own gradients (OGD/ADA); row-by-row stepping of the
+  # update function (whose single steps check_case verifies) for the sketched methods
+  ref = []
+  if alg in ("OGD", "ADA"):
+    w = np.zeros(n); h = np.ones(n) * delta; tot = 0.0
+    ref.append({"w": w.copy(), "loss": 0.0})
+    for t in range(1, rows + 1):
+      g = np_grad(w, x[t - 1], y[t - 1]); tot += np_loss(w, x[t - 1], y[t - 1])
+      if alg == "OGD":
+        w = w - lr * g / np.sqrt(t + delta)
+      else:
+        h = h + g * g
+        w = w - lr * g / np.sqrt(np.where(h == 0, 1.0, h))
+      ref.append({"w": w.copy(), "loss": tot})
+  else:
+    st = init(); tot = 0.0
+    ref.append({"w": np.asarray(st["w"], np.float64), "loss": 0.0, "e": np.asarray(st["e"], np.float64), "alpha": float(st["alpha"])})
+    for t in range(1, rows + 1):
+      f, g = lag(st["w"], jnp.asarray(x[t - 1]), jnp.asarray(y[t - 1]))
+      tot += float(f)
+      st = upd(dict(st), f, g)
+      ref.append({"w": np.asarray(st["w"], np.float64), "loss": tot, "e": np.asarray(st["e"], np.float64), "alpha": float(st["alpha"])})
+  if len(hist["n"]) != len(obs):
+    rec.violation("train-history-length", "history has %d entries for %d observation points" % (len(hist["n"]), len(obs)), c)
+    return
+  for i, k in enumerate(obs):
+    rec.count("train_history_checked")
+    if int(hist["n"][i]) != int(k):
+      rec.violation("train-row-count", "%s: history entry %d was taken after %d rows, observation index is %d" % (alg, i, int(hist["n"][i]), int(k)), c)
+      return
+    if "t" in hist and int(hist["t"][i]) != int(k):
+      rec.violation("train-row-count", "%s: step counter %d at observation index %d" % (alg, int(hist["t"][i]), int(k)), c)
+      return
+    r = ref[int(k)]
+    scale = np.max(np.abs(r["w"])) + 1e-300
+    err = np.max(np.abs(hist["w"][i] - r["w"])) / scale if k else float(np.max(np.abs(hist["w"][i])))
+    # sketched methods re-use ill-conditioned inverses along the trajectory: compiled and eager runs of the same
+    # steps agree to rounding amplified over the rows; closed forms are exact to float64 rounding
+    tol = 1e-9 if alg in ("OGD", "ADA") else 1e-6
+    rec.maxi("train_w_relerr_over_tol", err / tol)
+    if not (err <= tol):
+      rec.violation("train-iterate-" + alg, "%s: iterate at observation index %d (after %d rows) differs from the %s by %.3g rel" % (
+          alg, i, int(k), "closed form" if alg in ("OGD", "ADA") else "row-by-row run", err), c)
+      return
+    lerr = abs(hist["loss"][i] - r["loss"]) / (abs(r["loss"]) + 1e-12)
+    if not (lerr <= 1e-6):
+      rec.violation("train-loss", "%s: cumulative loss %.12g at observation index %d, expected %.12g" % (alg, hist["loss"][i], i, r["loss"]), c)
+      return
+    if "e" in hist:
+      rec.count("last_row_zero_checked")
+      if hist["e"][i][-1] != 0.0:
+        rec.violation("last-row-nonzero", "%s: e[-1]=%.3g in the training history at index %d" % (alg, hist["e"][i][-1], i), c)
+        return
+  util.release_compiled_code() if hasattr(util, "release_compiled_code") else None
+
+
 def run(spec, rec):
   rng = util.rng_for(spec["seed"], PROPERTY, spec["name"])
   for i in range(spec["n"]):
@@ -236,7 +341,17 @@ def run(spec, rec):
       rec.count("dropped_for_budget", spec["n"] - i)
       break
     check_case(gen_case(rng), rec)
+  rng2 = util.rng_for(spec["seed"], PROPERTY, spec["name"] + ":train")
+  for i in range(max(6, spec["n"] // 5)):
+    if time.time() > rec.deadline:
+      rec.count("dropped_for_budget_train")
+      break
+    check_train(gen_train_case(rng2), rec)
 
 
 def replay(witness, rec):
-  check_case(util.dec(witness), rec)
+  w = util.dec(witness)
+  if w.get("kind") == "train":
+    check_train(w, rec)
+  else:
+    check_case(w, rec)
